@@ -56,7 +56,7 @@ Lemma cuf_run : forall W n t,
 Proof.
   intros W n t Hn Hp. unfold cuf. destruct (n =? 0) eqn:E.
   - right. split; [lia|reflexivity].
-  - left. cbn. unfold same_but_cursor; cbn. auto 10.
+  - left. cbn [trun fold_left tstep]. unfold pn. rewrite E. unfold same_but_cursor; cbn. auto 10.
 Qed.
 
 Lemma cuf_run0 : forall W n t,
@@ -76,7 +76,7 @@ Lemma cuu_run : forall W n t,
 Proof.
   intros W n t Hn Hp. unfold cuu. destruct (n =? 0) eqn:E; cbv zeta.
   - cbn. repeat split; auto using sbc_refl. lia.
-  - cbn. unfold same_but_cursor; cbn. repeat split; auto. lia.
+  - cbn [trun fold_left tstep]. unfold pn. rewrite E. unfold same_but_cursor; cbn. repeat split; auto.
 Qed.
 
 Lemma cub_run : forall W n t,
@@ -86,5 +86,6 @@ Lemma cub_run : forall W n t,
 Proof.
   intros W n t Hn Hp. unfold cub. destruct (n =? 0) eqn:E; cbv zeta.
   - cbn. repeat split; auto using sbc_refl. lia.
-  - destruct (n =? 1) eqn:E1; cbn; unfold same_but_cursor; cbn; repeat split; auto; lia.
+  - destruct (n =? 1) eqn:E1; cbn [trun fold_left tstep]; unfold pn; try rewrite E;
+      unfold same_but_cursor; cbn; repeat split; auto; lia.
 Qed.
